@@ -36,7 +36,7 @@ def prefixes():
 
 
 # alphabet -> (prefix, suite)
-ALPHA_CFG = {"HC_D": ("PX_D", "struct4")}
+ALPHA_CFG = {"HC_D": ("PX_D", "struct4"), "HC_E": ("PX_E", "struct4")}
 
 
 def design(name, depth, scratch, suite, log):
@@ -109,10 +109,20 @@ def session_phase(prop, tier, seed, scratch, log, suites=("struct4", "struct3"))
     after every call. Returns (violations, info)."""
     nrand = 250 if tier == "quick" else 4000
     viols, infos = [], []
+    plans = []
     for k, sname in enumerate(suites):
         suite = cf.SUITES[sname]
-        spec = {"mode": "random", "count": nrand, "length": 40, "seed": seed + 17 * k, "kinds": suite["kinds"],
-                "p_undo": 0.28, "p_redo": 0.2}
+        plans.append((sname, suite, {"mode": "random", "count": nrand, "length": 40, "seed": seed + 17 * k,
+                                     "kinds": suite["kinds"], "p_undo": 0.28, "p_redo": 0.2}))
+    if "struct4" in suites:
+        # all sequences over the edit alphabets of MCHist.tla (+ undo, redo), after their prefixes
+        alph, pre = alphabets(), prefixes()
+        for name in sorted(alph):
+            pname, sname = ALPHA_CFG.get(name, ("PX_none", "struct3"))
+            plans.append((f"{sname}_{name}", cf.SUITES[sname],
+                          {"mode": "exhaustive", "alphabet": alph[name], "length": 4 if tier == "quick" else 5,
+                           "prefix": pre.get(pname, [])}))
+    for sname, suite, spec in plans:
         shards, info = sessions(suite, spec, scratch, f"inv_{sname}")
         res = trace(suite, shards, scratch, log, props=(prop,))
         if res["sessions"] != info["sessions"]:
